@@ -31,6 +31,11 @@ EXHAUSTIVE_THOROUGH = [
 EXHAUSTIVE_PREFIX = [("2 1 / X:0 / P:1:n:0:0 D:0 ; P:0:n:0:0 D:0", 60000)]
 
 HAND = [
+    # a cancelled callback is SKIPPED on thread 0; later thread 0 (outside any callback) cancel-and-waits on the id
+    # while thread 1 runs a callback of it: must wait (count 1 is not thread 0's own dispatch)
+    ("2 1 / / D:0 P:1:n:0:0 W:0 ; P:0:n:0:0 C:0 D:0", ["11111" + "00000" + "0000" + "1111" + "00" + "01" * 20,
+                                                        "11111" + "00000" + "0000" + "111" + "000" + "01" * 20]),
+    ("2 1 / / D:0 P:1:n:0:0 X:0 ; P:0:n:0:0 C:0 D:0", ["11111" + "00000" + "0000" + "1111" + "0000" + "01" * 20]),
     # mutual cancel with the 0x8 handshake (both inside a callback on the shared id)
     ("2 1 / X:0 / P:1:n:0:0 D:0 ; P:0:n:0:0 D:0", ["01" * 40, "0" * 12 + "1" * 30 + "0" * 30, "0011" * 20, "000111" * 14]),
     # mutual cancel with the single-argument form: deadlocks (both wait for the other's count)
